@@ -1,10 +1,13 @@
 """C06 — contrast statistics, p-values, z-scores and FDR are mutually consistent.
 
-Correspondence: `Tcontrast / Fcontrast / t`, `Contrast.stat / p_value / z_score /
-__add__ / __rmul__` and the cache protocol between them (fmri and labs classes),
-labs `glm.contrast`, `z_score` clipping, `fdr`, `fdr_threshold` against the Lean model
-(exact rationals; tolerance only where the implementation rounds).  Oracle: the
-property's clauses evaluated directly on the real code.
+Correspondence: `Tcontrast / Fcontrast / t` (incl. `dispersion`, `store`, `invcov`), `Contrast` / labs
+`contrast` objects with their whole constructor state (type, tiny, dofmax) under operation histories
+(`stat / p_value / z_score / + / scalar * / * scalar / __div__`, the cache protocol between them), the
+contrast factories (labs `glm.contrast`, fmri `GeneralLinearModel.contrast`, multi-session
+`FMRILinearModel.contrast`), both z-score clips, `fdr`, `fdr_threshold`, `gaussian_fdr`,
+`NormalEmpiricalNull.fdrcurve` against the Lean model (exact rationals; tolerance only where the
+implementation rounds).  Oracle: the property's clauses evaluated directly on the real code.
+The case kinds `hist`, `labsfit`, `glm`, `msess`, `enull` live in `c06_ext.py`.
 """
 from __future__ import annotations
 
@@ -15,7 +18,8 @@ from unittest import mock
 
 import numpy as np
 
-from harness.core import PropertyCheck
+from harness.core import REPO, PropertyCheck, TieBroken
+from harness.props import c06_ext as X
 from harness.util import Snapshot, errname, fr, frs, parse_rats, plist
 
 TINY = 1e-50
@@ -83,9 +87,13 @@ def _gen_model(rng):
             Y = Ya.tolist()
     q = rng.randint(1, p)
     bad = rng.choice([None] * 6 + ["len", "rows"])
+    opt = None
+    if rng.random() < 0.4:          # rarely used arguments: explicit dispersion, partial `store`, known `invcov`
+        opt = {"disp": rng.choice([2.0, 0.5, 1.0, 2.0 ** -20, 16.0]),
+               "store": rng.choice([["t"], ["effect"], ["sd"], ["t", "sd"], ["effect", "sd"], ["t", "effect", "sd"]])}
     return {"kind": "model", "X": X, "Y": Y, "oned": nv == 0,
             "c": _fullrank(rng, 1, p)[0], "M": _fullrank(rng, q, p), "G": _invertible(rng, q),
-            "col": rng.randrange(p), "bad": bad}
+            "col": rng.randrange(p), "bad": bad, "opt": opt}
 
 
 def _gen_con(rng, cls=None, tail=False):
@@ -111,23 +119,13 @@ def _gen_con(rng, cls=None, tail=False):
     cands = rng.sample([0.0, 1.0, -0.5, 2.5], 3)
     ops = [[rng.choice("spz"), rng.choice(cands)] for _ in range(rng.choice([2, 3, 3, 4, 5]))]
     return {"kind": "con", "cls": cls, "ty": ty, "q": q, "nv": nv, "effect": eff, "var": var.tolist(),
-            "dof": rng.choice(DOFS), "baseline": rng.choice(bl), "tiny": rng.choice([TINY, TINY, TINY, 2.0 ** -10]),
+            "dof": rng.choice(DOFS), "baseline": rng.choice(bl), "tiny": rng.choice(X.TINYS[:5]),
+            "dofmax": rng.choice(X.DOFMAXS),
             "order": rng.choice(["C", "C", "F"]), "k": rng.choice([2.0, 0.5, 3.0, 0.125, 1024.0, -1.0, 0.0, 1.0]),
             "G": _invertible(rng, q),
             "other": {"ty": other_ty, "q": oq, "effect": [[rng.randint(-8, 8) * 0.5 for _ in range(nv)] for _ in range(oq)],
                       "var": ovar.tolist(), "dof": rng.choice(DOFS)},
             "ops": ops}
-
-
-def _gen_labsfit(rng):
-    n = rng.choice([5, 6, 8, 10])
-    p = rng.choice([2, 2, 3, 4])
-    n = max(n, p + 2)
-    nv = rng.choice([1, 2, 3])
-    q = rng.randint(1, p)
-    return {"kind": "labsfit", "X": _design(rng, n, p), "Y": _imat(rng, n, nv, -8, 8),
-            "C": _fullrank(rng, q, p), "G": _invertible(rng, q), "oned": q == 1 and rng.random() < 0.5,
-            "ty": rng.choice(["t", "F", "F", "tmin"]), "baseline": rng.choice([0.0, 0.0, 1.0, -0.5])}
 
 
 def _gen_fdr(rng):
@@ -154,16 +152,6 @@ def _gen_fdr(rng):
         bad = rng.choice(["neg", "big", "nan", "empty"])
     return {"kind": "fdr", "p": p, "alpha": alpha, "bad": bad,
             "perm": rng.sample(range(len(p)), len(p))}
-
-
-def _gen_glm(rng):
-    n = rng.choice([8, 10, 12, 16])
-    p = rng.choice([2, 3, 4])
-    nv = rng.choice([2, 3, 5])
-    q = rng.randint(1, p)
-    return {"kind": "glm", "X": _design(rng, n, p), "Y": _imat(rng, n, nv, -8, 8),
-            "model": rng.choice(["ols", "ols", "ar1"]), "c": _fullrank(rng, 1, p)[0],
-            "M": _fullrank(rng, q, p), "G": _invertible(rng, q)}
 
 
 SWEEP = [0.0, 1e-300, 1e-100, 1e-30, 1e-10, 1e-3, 0.1, 0.5, 1.0, 1.5, 2.0, 3.0, 5.0, 7.0, 8.0, 8.2, 8.3, 8.5,
@@ -209,52 +197,86 @@ class _Rec:
 class C06(PropertyCheck):
     id = "C06"
     title = "Contrast statistics, p-values, z-scores and FDR are mutually consistent"
-    lean_modules = ["NipyVerif.Props.C06"]
+    lean_modules = ["NipyVerif.Props.C06", "NipyVerif.Props.C06B"]
     driver = "Drivers/C06.lean"
-    rule = ("cases from a seeded PRNG: fitted OLS models with t/F contrasts (incl. exact fits = zero variance), "
-            "Contrast objects (fmri and labs classes; t, F, tmin, unknown type; C- and Fortran-ordered variance; "
-            "dof 1..5e10; baselines; call sequences stat/p_value/z_score), labs glm fits, p-value vectors "
-            "(ties, 0, 1, boundary values, malformed) and tail sweeps |stat| up to 1e300; non-trivial = more than "
-            "one voxel/parameter/p-value or a multi-row contrast or a call sequence; distinct by full JSON")
+    rule = ("cases from a seeded PRNG: fitted OLS models with t/F contrasts (incl. exact fits = zero variance; explicit "
+            "dispersion, partial store, known invcov), Contrast objects (fmri and labs classes; t, F, tmin, unknown type; "
+            "C- and Fortran-ordered variance; dof 1..5e10; non-default tiny and dofmax; baselines; call sequences "
+            "stat/p_value/z_score), operation histories on one object (create with non-default tiny/dofmax, then "
+            "stat / p_value / z_score / + / scalar * / * scalar / __div__ in any order, operands with equal or different "
+            "settings, types and dimensions, scales 2^-30..2^30 kept exact), labs glm fits (ols / kalman / ar1, axis 0/1, "
+            "contrast(c, type, tiny, dofmax), summary, save/load), fmri GeneralLinearModel.contrast (12 request shapes x "
+            "types, AR(1) bins) and FMRILinearModel.contrast (1-3 sessions, null session contrasts, all output flags), "
+            "p-value vectors (ties, 0, 1, boundary values, malformed), gaussian_fdr / NormalEmpiricalNull samples and tail "
+            "sweeps |stat| up to 1e300 incl. dof above dofmax; non-trivial = more than one voxel/parameter/p-value or a "
+            "multi-row contrast or a call sequence; distinct by full JSON")
     assumptions = [
-        "np.sqrt is a parameter: the model receives the value s and the driver refuses it unless |s*s - x| <= 2^-48 x; "
-        "theorems that need it assume s >= 0 and s*s = x",
+        "np.sqrt is a parameter: in the legacy lines the model receives the value s and the driver refuses it unless "
+        "|s*s - x| <= 2^-48 x; in histories the square root stays symbolic (the model answers num/sqrt(den2) as a term, "
+        "minimum of such terms decided exactly in the rationals, proved sound for every positive square root) and the "
+        "harness evaluates the term in binary64; theorems that need it assume s >= 0 and s*s = x",
         "matrix inversion (numpy.linalg.inv, LAPACK getrf/getri, labs mahalanobis) is a parameter: theorems hold for "
         "any left inverse W (W*V = 1); the driver uses an exact rational Gauss-Jordan inverse re-checked by W*V = 1 "
-        "and the implementation is compared to it within 1e-10*cond(V)",
-        "scipy.stats.t.sf / f.sf / norm.isf are parameters: the correspondence checks which tail is called with which "
-        "degrees of freedom and which clipped argument (exactly); that the tails are antitone maps into [0,1] and "
-        "norm.isf is antitone and finite on [1e-300, 1-2^-53] are hypotheses of the monotonicity theorem, checked "
-        "numerically by the oracle (sweeps, closed forms for df in {1,2}, Fisher (2,d), normal limit)",
-        "numpy argsort tie order is immaterial (tied p-values get equal q-values; proved for the sorted core, checked "
-        "per case for the un-sort)",
-        "floating-point rounding of dot products: the model is exact, comparisons use |c||theta|-scaled tolerances",
+        "(invMat_sound) and the implementation is compared to it within 1e-10*cond(V)",
+        "scipy.stats.t.sf / f.sf / norm.isf are parameters: the model answers a p-value / z-score as the term "
+        "'tail(call, dfs) at statistic'; the harness checks the implementation's p against SciPy's tail at the "
+        "implementation's own statistic with the model's degrees of freedom (1e-11) and z against norm.isf of the clipped "
+        "p; that the tails are antitone maps into [0,1] (and the Student tail antitone in dof for x >= 0) and norm.isf is "
+        "antitone and finite on the clip interval are hypotheses of the monotonicity theorems, checked numerically by the "
+        "oracle (sweeps, closed forms for df in {1,2}, Fisher (2,d), normal limit)",
+        "numpy argsort / sort tie order is immaterial: fdr_is_BH is proved for the model's stable merge sort through the "
+        "sort permutation and characterises the result without reference to positions, so any other sort gives the same "
+        "values (fdr_perm_equivariant)",
+        "NormalEmpiricalNull.learn (histogram fit: p0, mu, sigma), norm.sf values, the VB-GMM / gamma-Gaussian "
+        "mixtures and the Kalman fits of labs glm are inputs: the exact part after them (fdrcurve running maximum, "
+        "contrast algebra) is modelled; fits handing over a non-positive-definite covariance are skipped",
+        "floating-point rounding of dot products: the model is exact, comparisons use |c||theta|-scaled tolerances; "
+        "along a history the rounding-error bounds of effect and variance are propagated (zero while the arithmetic is "
+        "exact, which the generator arranges)",
     ]
-    level_note = ("'p equals the Student/Fisher tail' is definitional in the model (which tail, which df) and numeric "
-                  "on SciPy; sqrt and inverse enter theorems as exact-value hypotheses")
+    level_note = ("'p equals the Student/Fisher tail' is definitional in the model (which tail, which df = min(dof, dofmax)) "
+                  "and numeric on SciPy; sqrt and inverse enter theorems as exact-value hypotheses; the numerical "
+                  "constants (DEF_TINY, DEF_DOFMAX, clip bounds) are regenerated from the source text and proved equal "
+                  "to the model's")
 
     # ------------------------------------------------------------------
+    def translators(self):
+        return X.translate_consts(REPO, TieBroken)
+
     def generate(self, rng, tier):
-        nm, nc, nl, nf, ng = (60, 260, 50, 220, 24) if tier == "quick" else (1200, 6000, 1000, 6000, 400)
-        cases = [_gen_model(rng) for _ in range(nm)]
-        cases += [_gen_con(rng) for _ in range(nc)]
-        cases += [_gen_labsfit(rng) for _ in range(nl)]
+        nm, nc, nl, nf, ng, nh, ns, ne = (60, 200, 60, 200, 40, 260, 30, 40) if tier == "quick" else \
+            (2500, 10000, 3000, 10000, 1500, 20000, 1000, 400)
+        models = [_gen_model(rng) for _ in range(nm)]
+        cases = [_gen_con(rng) for _ in range(nc)]
+        cases += [X.gen_labsfit(rng, _design, _imat, _fullrank, _invertible) for _ in range(nl)]
         cases += [_gen_fdr(rng) for _ in range(nf)]
-        cases += [_gen_glm(rng) for _ in range(ng)]
+        cases += [X.gen_glm(rng, _design, _imat, _fullrank, _invertible) for _ in range(ng)]
+        cases += [X.gen_hist(rng, _pd, _imat) for _ in range(nh)]
+        cases += [X.gen_msess(rng, _design, _imat, _fullrank) for _ in range(ns)]
+        cases += [X.gen_enull(rng) for _ in range(ne)]
+        cases += [X.gen_ctor(rng) for _ in range(24 if tier == "quick" else 300)]
         dofs = [1.0, 2.0, 10.0, 1e10] if tier == "quick" else DOFS + [4.0, 7.0, 50.0, 1e4, 1e8, 1e9]
         for cls in ("fmri", "labs"):
             for d in dofs:
                 for ty, q in (("t", 1), ("F", 1), ("F", 2), ("tmin-conjunction", 2)):
-                    cases.append({"kind": "tail", "cls": cls, "ty": ty, "q": q, "dof": d, "zero_var": False})
-            cases.append({"kind": "tail", "cls": cls, "ty": "t", "q": 1, "dof": 5.0, "zero_var": True})
+                    cases.append({"kind": "tail", "cls": cls, "ty": ty, "q": q, "dof": d, "zero_var": False,
+                                  "dofmax": DOFMAX})
+            cases.append({"kind": "tail", "cls": cls, "ty": "t", "q": 1, "dof": 5.0, "zero_var": True, "dofmax": DOFMAX})
+            # the degrees-of-freedom cap: dof above a small dofmax
+            for dm, d in ((1.0, 5.0), (2.0, 1e10), (2.0, 2.0)):
+                for ty, q in (("t", 1), ("F", 2)):
+                    cases.append({"kind": "tail", "cls": cls, "ty": ty, "q": q, "dof": d, "zero_var": False, "dofmax": dm})
         cases.append({"kind": "zs"})
-        return cases
+        return cases + models
 
     # ------------------------------------------------------------------
     def run_case(self, case):
         warnings.filterwarnings("ignore")
         np.seterr(all="ignore")
-        return getattr(self, "_" + case["kind"])(case)
+        k = case["kind"]
+        if k in ("hist", "labsfit", "glm", "msess", "enull", "ctor"):
+            return getattr(X, "run_" + k)(case)
+        return getattr(self, "_" + k)(case)
 
     # ---- LikelihoodModelResults ---------------------------------------
     def _model(self, c):
@@ -301,6 +323,25 @@ class C06(PropertyCheck):
                     "oracle": f"{type(e).__name__}: {e} raised for a full-row-rank contrast of a fitted OLS model"}
         mut = snap.changed()
         eff = np.atleast_1d(tc.effect); sd = np.atleast_1d(tc.sd); t = np.atleast_1d(tc.t)
+        # the result objects as arrays are their statistic; confidence intervals agree with the two-sided t test
+        if not (np.array_equal(np.asarray(tc), np.asarray(tc.t)) and np.array_equal(np.asarray(fc), np.asarray(fc.F))):
+            fail = "np.asarray(TContrastResults / FContrastResults) is not the t / F statistic"
+        if c["oned"] and fail is None and float(np.atleast_1d(res.dispersion)[0]) > 0:
+            import scipy.stats as st
+            for alpha in (0.05, 0.5):
+                ci = res.conf_int(alpha=alpha)
+                ci2 = res.conf_int(alpha=alpha, cols=tuple(range(p)))
+                tj = np.atleast_1d(res.t())
+                p2 = 2 * st.t.sf(np.abs(tj), n - p)
+                inside = (ci[:, 0] <= 0) & (0 <= ci[:, 1])
+                clear = np.abs(p2 - alpha) > 1e-9
+                if ci.shape != (p, 2) or not np.allclose(ci, ci2, rtol=1e-12, atol=1e-300):
+                    fail = f"conf_int(cols=None) {ci.tolist()} differs from conf_int(cols=all) {ci2.tolist()}"
+                elif not np.allclose(ci.mean(1), theta[:, 0], rtol=1e-9, atol=1e-12 * np.abs(ci).max()):
+                    fail = "confidence intervals are not centred on the estimates"
+                elif np.any((p2 < alpha)[clear] == inside[clear]):
+                    fail = (f"conf_int(alpha={alpha}) {ci.tolist()} disagrees with the two-sided t test: t={tj!r}, "
+                            f"p={p2!r}")
         F = np.atleast_1d(fc.F); F1 = np.atleast_1d(f1.F); FG = np.atleast_1d(fg.F)
         fe = np.asarray(fc.effect, float).reshape(q, -1)
         fcv = np.asarray(fc.covariance, float).reshape(q, q, -1)
@@ -332,12 +373,53 @@ class C06(PropertyCheck):
                     fail = f"Tcontrast: t={t[v]!r} but effect/sd={eff[v] / sd[v]!r} (voxel {v})"
                 elif sd[v] == 0 and t[v] != 0:
                     fail = f"Tcontrast: zero standard error but t={t[v]!r} (voxel {v})"
-                elif not _close(F1[v], t[v] ** 2, 1e-8 * max(1.0, condV)) and disp[v] > 0:
+                elif not _close(F1[v], t[v] ** 2, 1e-8 * max(1.0, condV)) and disp[v] > 0 and \
+                        abs(F1[v] - t[v] ** 2) > 1e-10 * float(np.abs(cvec) @ np.abs(th)) ** 2 * _pos_recipr(sd[v] ** 2):
                     fail = f"one-row Fcontrast F={F1[v]!r} but t^2={t[v] ** 2!r} (voxel {v})"
-                elif not _close(FG[v], F[v], 1e-9 * condV * max(1.0, np.linalg.cond(np.array(c['G']))) ** 2):
+                elif not _close(FG[v], F[v], 1e-9 * condV * max(1.0, np.linalg.cond(np.array(c['G']))) ** 2) and \
+                        abs(FG[v] - F[v]) > 1e-9 * condV * max(1.0, np.linalg.cond(np.array(c['G']))) ** 2 * bound:
+                    # (an effect that vanishes exactly leaves only rounding noise over a rounding-noise dispersion)
                     fail = f"Fcontrast not invariant under row recombination G: F(M)={F[v]!r} F(GM)={FG[v]!r} (voxel {v})"
                 elif fc.df_num != q or fc.df_den != n - p or tc.df_den != n - p:
                     fail = f"degrees of freedom: df_num={fc.df_num} (rows {q}) df_den={fc.df_den} (n-p={n - p})"
+        opt = c.get("opt")
+        if opt and fail is None:
+            d = float(opt["disp"])
+            tags.append("options")
+            try:
+                tcs = res.Tcontrast(cvec, dispersion=d, store=tuple(opt["store"]))
+                tcd = res.Tcontrast(cvec, dispersion=d)
+                fcd = res.Fcontrast(M, dispersion=d)
+                f1d = res.Fcontrast(cvec, dispersion=d)
+                fiv = res.Fcontrast(M, invcov=W)
+            except Exception as e:
+                fail = (f"{type(e).__name__}: {e} raised by Tcontrast/Fcontrast(contrast, dispersion={d!r}) on a fitted OLS model "
+                        f"(documented argument: None or float)")
+            else:
+                for nm in ("t", "effect", "sd"):
+                    if (getattr(tcs, nm) is not None) != (nm in opt["store"]) and fail is None:
+                        fail = f"Tcontrast(store={opt['store']}): field {nm} {'missing' if nm in opt['store'] else 'stored'}"
+                td = np.atleast_1d(tcd.t); ed = np.atleast_1d(tcd.effect); sdd = float(np.ravel(tcd.sd)[0])
+                Fd = np.atleast_1d(fcd.F); F1d = np.atleast_1d(f1d.F); Fiv = np.atleast_1d(fiv.F)
+                fcvd = np.asarray(fcd.covariance, float).reshape(q, q, -1)
+                for v in range(nv):
+                    th = theta[:, v]
+                    hd = f"{p} {frs(th)} {frs(cov.ravel())} {fr(d)}"
+                    ae = 1e-13 * float(np.abs(cvec) @ np.abs(th)) + 1e-300
+                    av = 1e-12 * float(np.abs(cvec) @ np.abs(cov) @ np.abs(cvec)) * d + 1e-300
+                    lines.append(f"tcon {hd} 1 {p} {frs(cvec)} {fr(sdd)}")
+                    impl.append(("vals", [ed[v], sdd ** 2, td[v]], [ae, av, ae * _pos_recipr(sdd) + 1e-300]))
+                    u = np.abs(M) @ np.abs(th)
+                    tolF = 1e-10 * condV * float(u @ np.abs(W) @ u) / (q * d) + 1e-300
+                    tolc = 1e-12 * float((np.abs(M) @ np.abs(cov) @ np.abs(M.T)).max()) * d + 1e-300
+                    lines.append(f"fcon {hd} {q} {p} {frs(M.ravel())}")
+                    impl.append(("vals", [Fd[v], fcd.df_num] + fe[:, v].tolist() + fcvd[:, :, 0].ravel().tolist(),
+                                 [tolF, 0] + [1e-13 * float(u.max()) + 1e-300] * q + [tolc] * (q * q)))
+                    if fail is None:
+                        if not _close(F1d[v], td[v] ** 2, 1e-8 * max(1.0, condV)):
+                            fail = f"dispersion={d}: one-row Fcontrast F={F1d[v]!r} but t^2={td[v] ** 2!r} (voxel {v})"
+                        elif not _close(Fiv[v], F[v], 1e-9 * condV):
+                            fail = f"Fcontrast with the known inverse covariance gives F={Fiv[v]!r}, without it {F[v]!r}"
         if np.any(disp == 0):
             tags.append("zero-dispersion")
         tags.append(f"q={q}")
@@ -353,13 +435,14 @@ class C06(PropertyCheck):
         q = eff.shape[0]
         var = np.asfortranarray(var) if order == "F" else np.ascontiguousarray(var)
         tiny = c.get("tiny", TINY)
+        dofmax = c.get("dofmax", DOFMAX)
         if c["cls"] == "fmri":
             from nipy.modalities.fmri.glm import Contrast
             import contextlib, io
             with contextlib.redirect_stdout(io.StringIO()):
-                return Contrast(eff, var, dof=dof, contrast_type=ty, tiny=tiny)
+                return Contrast(eff, var, dof=dof, contrast_type=ty, tiny=tiny, dofmax=dofmax)
         import nipy.labs.glm.glm as lg
-        k = lg.contrast(q, LABS_TY.get(ty, ty), tiny)
+        k = lg.contrast(q, LABS_TY.get(ty, ty), tiny, dofmax)
         if q == 1:
             k.effect, k.variance = eff[0], var[0, 0]
         else:
@@ -377,6 +460,7 @@ class C06(PropertyCheck):
         cls, ty, q, nv, b = c["cls"], c["ty"], c["q"], c["nv"], c["baseline"]
         eff = np.array(c["effect"], float); var = np.array(c["var"], float)
         tiny, dof = c["tiny"], c["dof"]
+        dofmax = c.get("dofmax", DOFMAX)
         lines, impl, fail, tags = [], [], None, ["con", "cls=" + cls, "ty=" + ty, f"dim={min(q, 3)}", "order=" + c["order"]]
         mut = None
         mty = LABS_TY[ty] if cls == "labs" else ty     # string the class sees
@@ -415,7 +499,7 @@ class C06(PropertyCheck):
                 fresh("p", b); obs = None
             except Exception as e:
                 obs = errname(e)
-        lines.append(f"pcall {mty} {q} {fr(dof)} {fr(DOFMAX)}")
+        lines.append(f"pcall {mty} {q} {fr(dof)} {fr(dofmax)}")
         if obs is None and rec.calls:
             fn, x, dfs = rec.calls[-1]
             impl.append(("text", f"{fn} {frs(dfs)}"))
@@ -446,7 +530,7 @@ class C06(PropertyCheck):
             lines.append(f"zclip {plist(pval)}")
             impl.append(("exact", rn.calls[-1][1].ravel().tolist()) if rn.calls else ("text", "no isf call"))
             import scipy.stats as st
-            dfd = min(dof, DOFMAX)
+            dfd = min(dof, dofmax)
             want_p = st.f.sf(stat, q, dfd) if eff_ty == "F" else st.t.sf(stat, dfd)
             want_z = st.norm.isf(np.minimum(np.maximum(pval, 1e-300), 1 - 1e-16))
             inr = (pval >= 1e-300) & (pval <= 1 - 1e-16)    # outside: only finite and monotone are required
@@ -534,7 +618,8 @@ class C06(PropertyCheck):
                 s0, p0, z0 = (fresh(op, 0.0) for op in "spz")
                 if not (np.allclose(s2[ok], s0[ok], rtol=1e-9, atol=0) and np.allclose(p2[ok], p0[ok], rtol=1e-7, atol=1e-300)
                         and np.allclose(z2[ok], z0[ok], rtol=1e-7, atol=1e-9)):
-                    note(f"scaling the contrast by {k} changes t/p/z: {s0!r}->{s2!r}, {p0!r}->{p2!r}, {z0!r}->{z2!r}")
+                    note(f"scaling the {cls} contrast (type {ty}, dim {q}, dof {dof}, tiny {tiny}, dofmax {dofmax}) by {k} "
+                         f"changes t/p/z: {s0!r}->{s2!r}, {p0!r}->{p2!r}, {z0!r}->{z2!r}")
                 tags.append("scale-tested")
             except Exception as e:
                 note(f"{type(e).__name__}: {e} raised on the scaled contrast")
@@ -579,108 +664,6 @@ class C06(PropertyCheck):
         return {"lines": lines, "impl": impl, "oracle": fail, "nontrivial": nv > 1 or q > 1 or len(c["ops"]) > 1,
                 "tags": tags, "mutated": mut}
 
-    # ---- labs glm.contrast --------------------------------------------
-    def _labsfit(self, c):
-        import nipy.labs.glm.glm as lg
-        X = np.array(c["X"], float); Y = np.array(c["Y"], float); C = np.array(c["C"], float)
-        n, p = X.shape; q = C.shape[0]; nv = Y.shape[1]
-        m = lg.glm(Y, X)
-        cc = C[0] if (q == 1 and c["oned"]) else C
-        snap = Snapshot(C=cc, beta=m.beta, nvbeta=m.nvbeta, s2=m.s2)
-        con = m.contrast(cc, type=c["ty"])
-        mut = snap.changed()
-        e = np.asarray(con.effect, float).reshape(q, nv)
-        vv = np.asarray(con.variance, float).reshape(q, q, nv)
-        s2 = np.atleast_1d(m.s2)
-        lines, impl, fail = [], [], None
-        for v in range(nv):
-            lines.append(f"lcon {q} {p} {frs(C.ravel())} {frs(m.beta[:, v])} {frs(m.nvbeta.ravel())} {fr(s2[v])}")
-            te = 1e-13 * float((np.abs(C) @ np.abs(m.beta[:, v])).max()) + 1e-300
-            tv = 1e-12 * float((np.abs(C) @ np.abs(m.nvbeta) @ np.abs(C.T)).max()) * s2[v] + 1e-300
-            impl.append(("vals", e[:, v].tolist() + vv[:, :, v].ravel().tolist(), [te] * q + [tv] * q * q))
-        b = c["baseline"]
-        try:
-            stat = np.ravel(con.stat(b)); pv = np.ravel(con.pvalue(b)); z = np.ravel(con.zscore(b))
-        except Exception as ex:
-            return {"lines": lines, "impl": impl, "nontrivial": True, "tags": ["labsfit", "raised"], "mutated": mut,
-                    "oracle": f"labs contrast ({c['ty']}, dim {q}) raised {type(ex).__name__}: {ex}"}
-        ty = con.type
-        cond = max(np.linalg.cond(vv[:, :, v]) for v in range(nv))
-        if con.dof != n - p:
-            fail = f"labs glm dof {con.dof} != n-p {n - p}"
-        elif stat.size != nv:
-            fail = (f"labs {ty} contrast of dimension {q} on {nv} voxel(s) returns {stat.size} statistics "
-                    f"(effect shape {np.shape(con.effect)}, variance shape {np.shape(con.variance)})")
-        elif q == 1:
-            t = (e[0] - b) / np.sqrt(np.maximum(vv[0, 0], TINY))
-            want = t ** 2 if ty == "F" else t
-            if not np.allclose(stat, want, rtol=1e-12):
-                fail = f"labs {ty} statistic {stat!r} != {want!r}"
-        elif ty == "F":
-            want = np.array([(e[:, v] - b) @ np.linalg.solve(vv[:, :, v], e[:, v] - b) / q for v in range(nv)])
-            if not np.allclose(stat, want, rtol=1e-9 * cond, atol=0):
-                fail = (f"labs F statistic {stat!r} is not the Mahalanobis distance / dim = {want!r} "
-                        f"(variance of voxel 0: {vv[:, :, 0].tolist()})")
-            else:
-                G = np.array(c["G"], float)
-                if b == 0:
-                    sg = np.ravel(m.contrast(G @ C, type="F").stat(0.0))
-                    if not np.allclose(sg, stat, rtol=1e-8 * cond * np.linalg.cond(G) ** 2, atol=0):
-                        fail = f"labs F statistic changes under row recombination G={G.tolist()}: {stat!r} -> {sg!r}"
-        elif ty == "tmin":
-            want = ((e - b) / np.sqrt(np.maximum(np.array([vv[i, i] for i in range(q)]), TINY))).min(0)
-            if not np.allclose(stat, want, rtol=1e-12):
-                fail = f"labs tmin statistic {stat!r} != {want!r}"
-        if fail is None:
-            import scipy.stats as st
-            wp = st.f.sf(stat, q, min(con.dof, DOFMAX)) if ty == "F" else st.t.sf(stat, min(con.dof, DOFMAX))
-            wz = st.norm.isf(np.minimum(np.maximum(pv, 1e-300), 1 - 1e-16))
-            inr = (pv >= 1e-300) & (pv <= 1 - 1e-16)
-            if not np.allclose(pv, wp, rtol=1e-12, atol=0) or np.any(pv < 0) or np.any(pv > 1):
-                fail = f"labs p-value {pv!r} is not the tail {wp!r}"
-            elif not (np.all(np.isfinite(z)) and np.allclose(z[inr], wz[inr], rtol=1e-12, atol=1e-12)):
-                fail = f"labs z-score {z!r} is not the quantile {wz!r}"
-        return {"lines": lines, "impl": impl, "oracle": fail, "nontrivial": True,
-                "tags": ["labsfit", "ty=" + ty, f"dim={min(q, 3)}"], "mutated": mut}
-
-    # ---- fmri GeneralLinearModel end to end ---------------------------
-    def _glm(self, c):
-        from nipy.modalities.fmri.glm import GeneralLinearModel
-        import contextlib, io
-        X = np.array(c["X"], float); Y = np.array(c["Y"], float)
-        n, p = X.shape
-        g = GeneralLinearModel(X)
-        g.fit(Y, model=c["model"])
-        cvec = np.array(c["c"], float); M = np.array(c["M"], float); q = M.shape[0]
-        fail = None
-        try:
-            with contextlib.redirect_stdout(io.StringIO()):
-                ct = g.contrast(cvec); cf1 = g.contrast(cvec, contrast_type="F")
-                cF = g.contrast(M, contrast_type="F"); cG = g.contrast(np.array(c["G"], float) @ M, contrast_type="F")
-            st, sf1, sF, sG = ct.stat(), cf1.stat(), cF.stat(), cG.stat()
-            pt, zt = ct.p_value(), ct.z_score()
-        except Exception as e:
-            return {"lines": [], "impl": [], "nontrivial": True, "tags": ["glm", "raised"],
-                    "oracle": f"{type(e).__name__}: {e} on a fitted {c['model']} GLM"}
-        t_res = np.zeros(Y.shape[1]); F_res = np.zeros(Y.shape[1])
-        for l, r in g.results_.items():
-            t_res[g.labels_ == l] = np.atleast_1d(r.Tcontrast(cvec).t)
-            F_res[g.labels_ == l] = np.atleast_1d(r.Fcontrast(M).F)
-        big = ct.variance.ravel() > 1e-40
-        cond = 1e3
-        if not np.allclose(st[big], t_res[big], rtol=1e-9):
-            fail = f"Contrast.stat {st!r} differs from Tcontrast t {t_res!r}"
-        elif not np.allclose(sf1[big], st[big] ** 2, rtol=1e-9):
-            fail = f"one-row F {sf1!r} is not t^2 {st ** 2!r}"
-        elif not np.allclose(sF[big], F_res[big], rtol=1e-7):
-            fail = f"Contrast F stat {sF!r} differs from Fcontrast F {F_res!r}"
-        elif not np.allclose(sG[big], sF[big], rtol=1e-6):
-            fail = f"F stat not invariant under row recombination: {sF!r} vs {sG!r}"
-        elif np.any(pt < 0) or np.any(pt > 1) or not np.all(np.isfinite(zt)):
-            fail = f"p outside [0,1] or z not finite: {pt!r} {zt!r}"
-        return {"lines": [], "impl": [], "oracle": fail, "nontrivial": True, "tags": ["glm", "model=" + c["model"]],
-                "mutated": None}
-
     # ---- tails: sweeps on the real code --------------------------------
     def _tail(self, c):
         import scipy.stats as st
@@ -708,14 +691,15 @@ class C06(PropertyCheck):
                 eff = np.vstack([grid, np.abs(grid) + 1.0])
                 want_stat = grid
             var = np.zeros((2, 2, nv)); var[0, 0] = 1; var[1, 1] = 1
-        cc = {"cls": cls, "effect": eff.tolist(), "var": var.tolist(), "dof": dof, "ty": ty, "tiny": TINY}
+        dofmax = c.get("dofmax", DOFMAX)
+        cc = {"cls": cls, "effect": eff.tolist(), "var": var.tolist(), "dof": dof, "ty": ty, "tiny": TINY, "dofmax": dofmax}
         fail = None
         try:
             stat, p, z = (self._call(self._mk(cc), cls, op, 0.0) for op in "spz")
         except Exception as e:
             return {"lines": [], "impl": [], "nontrivial": True, "tags": ["tail", "raised"],
                     "oracle": f"{type(e).__name__}: {e} in the {ty} tail sweep at dof {dof}"}
-        dfd = min(dof, DOFMAX)
+        dfd = min(dof, dofmax)
         if not np.allclose(stat, want_stat, rtol=1e-12, atol=0):
             fail = f"{ty} statistic {stat!r} differs from {want_stat!r}"
         elif np.any(np.isnan(p)) or np.any(p < 0) or np.any(p > 1):
@@ -774,8 +758,31 @@ class C06(PropertyCheck):
         import nipy.algorithms.statistics.utils as U
         with mock.patch.object(U, "norm", rn):
             z_score(p)
-        return {"lines": [f"zclip {plist(p)}"], "impl": [("exact", rn.calls[-1][1].tolist())], "oracle": fail,
-                "nontrivial": True, "tags": ["zs"], "mutated": snap.changed()}
+        lines = [f"zclip {plist(p)}"]
+        impl = [("exact", rn.calls[-1][1].tolist())]
+        # the labs helper (clips at 1e-15 on both sides)
+        import sys
+        import nipy.labs.utils  # noqa
+        import scipy.stats as sst
+        zmod = sys.modules["nipy.labs.utils.zscore"]
+        p2 = np.array([0.0, 1e-300, 1e-16, 9e-16, 1e-15, 1.1e-15, 1e-10, 0.01, 0.5, 0.99, 1 - 1e-10, 1 - 2e-15, 1 - 1e-15,
+                       1 - 5e-16, 1.0])
+        snap2 = Snapshot(p=p2)
+        z2 = zmod.zscore(p2)
+        if fail is None:
+            if not np.all(np.isfinite(z2)):
+                fail = f"labs zscore not finite on {p2[~np.isfinite(z2)]!r}"
+            elif np.any(np.diff(z2) > 0):
+                fail = "labs zscore increases with p"
+            elif not np.allclose(z2[4:-3], sst.norm.isf(p2[4:-3]), rtol=1e-13):
+                fail = "labs zscore is not norm.isf on the unclipped range"
+        rn2 = _Rec()
+        with mock.patch.object(sst, "norm", rn2):
+            zmod.zscore(p2)
+        lines.append(f"zclip2 {plist(p2)}")
+        impl.append(("exact", rn2.calls[-1][1].tolist()))
+        return {"lines": lines, "impl": impl, "oracle": fail,
+                "nontrivial": True, "tags": ["zs"], "mutated": snap.changed() or snap2.changed()}
 
     # ---- FDR ------------------------------------------------------------
     def _fdr(self, c):
@@ -869,6 +876,8 @@ class C06(PropertyCheck):
     # ------------------------------------------------------------------
     def compare(self, case, impl_obs, model_out):
         kind = impl_obs[0]
+        if kind in ("hist", "objx", "msess"):
+            return X.compare_ext(impl_obs, model_out)
         if kind == "text":
             return None if impl_obs[1] == model_out else f"impl={impl_obs[1]!r} model={model_out!r}"
         if kind == "tvals":      # type name, then numbers each rounded once by the implementation
@@ -894,13 +903,21 @@ class C06(PropertyCheck):
         tols = impl_obs[2]
         rel = impl_obs[3] if len(impl_obs) > 3 else 1e-13
         for k, (a, b, t) in enumerate(zip(vals, mv, tols)):
-            fb = float(b)
+            fb = X.ffloat(b)
+            if float(a) == fb:          # also ±inf where the exact value leaves the binary64 range
+                continue
             if not (abs(float(a) - fb) <= t + rel * abs(fb)):
                 return f"index {k}: impl={float(a)!r} model={fb!r} tol={t!r}"
         return None
 
     def shrink(self, case):
         k = case["kind"]
+        if k == "hist":
+            yield from X.shrink_hist(case)
+        if k == "msess" and len(case["sessions"]) > 1:
+            for i in range(len(case["sessions"])):
+                c = dict(case); c["sessions"] = case["sessions"][:i] + case["sessions"][i + 1:]
+                yield c
         if k == "con":
             if len(case["ops"]) > 1:
                 for i in range(len(case["ops"])):
@@ -928,7 +945,12 @@ class C06(PropertyCheck):
                     c = dict(case); c["Y"] = [r[:v] + r[v + 1:] for r in Y]
                     yield c
 
+    finding_keys = {"fcontrast-float-dispersion":
+                    "Fcontrast(matrix, dispersion=<python float>) raises TypeError ('float' object is not subscriptable)"}
+
     def classify(self, case, failure):
+        if case.get("kind") == "model" and "not subscriptable" in failure and "dispersion=" in failure:
+            return "fcontrast-float-dispersion"
         return None
 
 
